@@ -49,7 +49,10 @@ def check_case(run, case, tier='quick'):
                           observed=U.stdout_missing[:5]); return
         Ug = U.guesses
         total = len(Ug)
-        if total < 3 or total > 6000:
+        if '' in Ug:
+            k = Ug.index('')
+            run.violation(f'line {k + 1} of the unlimited run is empty: not a guess of this ruleset (no terminal is empty)', case, observed=Ug[max(0, k - 2):k + 3]); return
+        if total < 3 or total > (20000 if case.get('big_level') else 6000):
             run.inconc('stream size outside 3..6000'); return
         Upg = c15.pops_with_guesses(U)
         bounds, t = set(), 0
@@ -62,6 +65,13 @@ def check_case(run, case, tier='quick'):
                 inside.add(x)
             t += len(gs)
         bounds.update({1, total - 1, total, total + 1, total + 7})
+        if case.get('big_level'):
+            # inside a Markov level of thousands of strings: round numbers of guesses taken from the level (a tool that writes in blocks ends a block there)
+            t = 0
+            for key, prob, gs in Upg:
+                if key[0] == ('M',) and len(gs) >= 1000:
+                    bounds.update(t + k for k in (100, 128, 255, 256, 500, 512, 999, 1000, 1001, 1024, 2000, 2048, 3000, 4096, 5000, 8192, 10000) if k <= len(gs))
+                t += len(gs)
         if case.get('wide_group'):
             bounds.update({250, 255, 256, 257, 258, 259, 300, case['wide_group'] - 1, case['wide_group'], case['wide_group'] + 1, 512, 513})
         exhaustive = total <= 300 or (tier == 'thorough' and total <= 1500)
@@ -265,6 +275,18 @@ def wide_group_case(rng):
     spec = {'encoding': 'utf-8', 'uuid': 'wide-%08x' % rng.getrandbits(32), 'base': base, 'prince': [], 'terms': terms, 'omen': None}
     return {'spec': spec, 'flags': {'skip_brute': False, 'all_lower': False}, 'hseed': rng.getrandbits(32), 'wide_group': n}
 
+def big_level_case(rng):
+    """Markov levels of exactly 1000 and 10 000 strings (ten symbols, every transition at level 0, length 3 at level 0 and length 4 at level 1) beside a small
+    PCFG part: --limit at round numbers of guesses inside a level, and levels whose size is itself a round number."""
+    import itertools
+    alpha = ''.join(rng.sample('abcdefghijklmnopqrstuvwxyz', 10))
+    om = dict(ngram=2, ip=[[0, c] for c in alpha], cp=[[0, a + b] for a, b in itertools.product(alpha, repeat=2)], ln=[10, 10, 0, 1] + [10] * 4,
+              probs=[[0, 0.0004], [1, 0.00003]], keyspace=[[0, 1000], [1, 10000]])
+    terms = {'D2': [['12', 0.5], ['77', 0.3], ['00', 0.2]], 'O1': [['!', 0.6], ['.', 0.4]]}
+    base = [['D2O1', 0.3], ['M', 0.6], ['D2', 0.1]]
+    spec = {'encoding': 'utf-8', 'uuid': 'biglevel-%08x' % rng.getrandbits(32), 'base': base, 'prince': [], 'terms': terms, 'omen': om}
+    return {'spec': spec, 'flags': {'skip_brute': False, 'all_lower': False}, 'hseed': rng.getrandbits(32), 'big_level': True}
+
 def legacy_fixed_case(rng):
     """A ruleset in a legacy code page whose words, once a mask upper-cases them, leave that code page (latin-1: y-diaeresis, micro sign; cp1251: micro sign)."""
     enc = rng.choice(['latin-1', 'latin-1', 'cp1252', 'cp1251'])
@@ -333,6 +355,8 @@ def run(run, rng):
     if run.shard[0] == 2 % run.shard[1]:
         run.ev('wide_group_cases')
         run.guard(wide_group_case(rng), check_case, run.tier, seconds=600)
+        run.ev('big_markov_level_cases')
+        run.guard(big_level_case(rng), check_case, run.tier, seconds=900)
     if run.shard[0] == 0:
         case = gen_case(rng)
         case['error_paths'] = True
